@@ -975,7 +975,7 @@ fn enumerate(args: &Args) -> Vec<CCase> {
     let th = args.tier == "thorough";
     let mut v = Vec::new();
     for s in subjects(th) {
-        v.push(CCase::Hist { subj: s.clone(), depth: 2, cap: if th { 160 } else { 90 } });
+        v.push(CCase::Hist { subj: s.clone(), depth: 2, cap: if th { 200 } else { 130 } });
         if th {
             v.push(CCase::Hist { subj: s.clone(), depth: 3, cap: 64 });
         }
